@@ -15,6 +15,7 @@ use vworld::serde_json::Value;
 use vworld::{json, Rng};
 
 use crate::history::{Monitor, RetVal, Violation};
+use crate::metered::Metered;
 use crate::record::{decode, encode, segment_bytes, words_of_index, Decoded};
 
 /// Logical step budget of one scenario; exceeding it makes the scenario inconclusive.
@@ -577,7 +578,7 @@ pub fn run_scenario(sc: &Scenario, dir: &Path, record_sites: bool, keep_events: 
         out.fresh_reader_checks += 1;
         let cpath = CString::new(path.to_str().unwrap()).unwrap();
         match ShmReader::new(&cpath) {
-            Ok(mut r) => match r.snapshot() {
+            Ok(mut r) => match r.msnapshot() {
                 Ok(c) => {
                     let d = decode(c);
                     if d != Decoded::Publication(st.monitor.p) {
@@ -594,6 +595,9 @@ pub fn run_scenario(sc: &Scenario, dir: &Path, record_sites: bool, keep_events: 
         }
     }
 
+    for msg in crate::metered::drain_unbounded() {
+        st.monitor.violations.push(Violation { property: "C18", sig: "unbounded-work-in-one-call".into(), detail: msg });
+    }
     out.violations.extend(st.monitor.violations.iter().cloned());
     if st.aborting {
         out.inconclusive = Some(format!("step limit {} reached", STEP_LIMIT));
@@ -805,7 +809,7 @@ fn writer_task(shared: &Arc<Shared>, sc: &Scenario, path: &Path, record_sites: b
                         let cpath = CString::new(path.to_str().unwrap()).unwrap();
                         extra.lock().unwrap().fresh_reader_checks += 1;
                         let verdict = match ShmReader::new(&cpath) {
-                            Ok(mut r) => match r.snapshot() {
+                            Ok(mut r) => match r.msnapshot() {
                                 Ok(c) => {
                                     let d = decode(c);
                                     if d == Decoded::Publication(expected) { None } else { Some(format!("returned {:?}, expected publication {}", d, expected)) }
@@ -906,7 +910,7 @@ fn reader_task(shared: &Arc<Shared>, me: usize, ri: usize, prog: &ReaderProg, pa
             r.entry_gen = None;
         }
         shared.with_monitor(|m| m.call(ri));
-        let result = match reader.snapshot() {
+        let result = match reader.msnapshot() {
             Ok(c) => RetVal::Rec(decode(c)),
             Err(e) => RetVal::Err(format!("{:?}", e)),
         };
